@@ -252,70 +252,110 @@ def rule_deriv_key(F, ev, R, config, rule="R-DERIV-KEY"):
                 msg = "the key is an index into `%s`, not into the model parameter list" % short(space)[:80]
     R.add(rule, config, b.key, "inserted-key=index-in-model-list", ok, "" if ok else msg, b.j["span"])
     # the find predicate compares the name with the requested parameter
-    # (2) lookup key in eval_partial_deriv is the index argument, zero-initialised matrix
+    # (2) lookup key in eval_partial_deriv is the index argument, zero-initialised matrix (the lookup and the
+    #     allocation may sit in the method, in a closure it passes on, or in a helper: effects)
+    import effects as fx
+    import tab
     for eb in trait_impl_methods(F, TRAIT_MODEL, ADT_SEPMODEL, "eval_partial_deriv"):
         eenv = Env(eb)
-        gets = [(bi, t) for bi, t in eb.calls() if "fn" in t and callee_id(t["fn"]).endswith("HashMap::get")]
+        effs = list(fx.iteration_effects(ev, eenv))
+        cn = tab.Canon(ev)
+        gets = [e for e in effs if e.kind == "call" and e.cid.endswith("HashMap::get")]
         ok = False
         if len(gets) == 1:
-            bi, t = gets[0]
-            k = ev.operand(eenv, t["args"][1], (bi, None))
-            mp = ev.operand(eenv, t["args"][0], (bi, None))
+            k = cn.canon(gets[0].raw[1])
+            mp = cn.canon(gets[0].raw[0])
             ok = k == ("param", eb.key, 2) and mp[0] == "field" and mp[2] == sm["derivs"]
         R.add(rule, config, eb.key, "lookup-key=derivative-index", ok, "" if ok else "derivative looked up under a key other than the requested index", eb.j["span"])
-        allocs = [(bi, t) for bi, t in eb.calls() if "fn" in t and t["fn"].get("krate") == "nalgebra" and t["fn"]["name"] in ("from_element", "zeros", "from_element_generic", "zeros_generic", "uninit", "repeat", "from_fn")]
-        ok = len(allocs) == 1 and allocs[0][1]["fn"]["name"] in ("zeros", "zeros_generic")
-        if len(allocs) == 1 and allocs[0][1]["fn"]["name"] in ("from_element", "from_element_generic"):
-            v = ev.call_val(eenv, allocs[0][0])
-            ok = v[3][-1][0] == "call" and v[3][-1][1].endswith("Zero::zero")
+        allocs = [e for e in effs if e.kind == "call" and "nalgebra" in e.cid and e.name in ("from_element", "zeros", "from_element_generic", "zeros_generic", "uninit", "repeat", "from_fn", "new_uninit_generic")]
+        ok = len(allocs) == 1 and allocs[0].name in ("zeros", "zeros_generic")
+        if len(allocs) == 1 and allocs[0].name in ("from_element", "from_element_generic"):
+            v = allocs[0].args[-1]
+            ok = v[0] == "call" and v[1].endswith("Zero::zero")
         R.add(rule, config, eb.key, "derivative-matrix-starts-zero", ok, "" if ok else "columns of functions that do not depend on the parameter are not guaranteed to be zero", eb.j["span"])
     R.floor(rule, config, 3, "insert key, lookup key, zero init")
 
 
+def checking_helper(F):
+    """the single function that invokes a stored user callable (Box<dyn Fn>)"""
+    hs = set()
+    for b in F.bodies.values():
+        for bi, t in b.calls():
+            if "fn" in t and callee_id(t["fn"]) in ("std::ops::Fn::call", "std::ops::FnMut::call_mut", "std::ops::FnOnce::call_once") and "dyn" in t["fn"].get("self_ty", ""):
+                hs.add(b.j.get("root", b.key))
+    if len(hs) != 1:
+        raise AnchorMissing("checked evaluation helper: stored callables are invoked in %s" % sorted(hs))
+    return F.bodies[hs.pop()]
+
+
 def rule_column_order(F, ev, R, config, rule="R-COLUMN-ORDER"):
+    """column j of the matrix returned by eval / eval_partial_deriv is the j-th basis function (resp. its
+    derivative stored under the requested index), evaluated on the model's x and current parameters —
+    decided on the canonical column writes (tab.py): zip of functions and columns, index loops, driven
+    closures and shared helpers coincide"""
+    import effects as fx
+    import tab
+    from rules_panic import nosite
     sm = sepmodel_roles(F, ev)
+    H = checking_helper(F)
+    hcid = strip_generics(H.j["path"])
+    ev2 = Eval(F, opaque=set(ev.opaque) | {H.key})
     for name in ("eval", "eval_partial_deriv"):
         for b in trait_impl_methods(F, TRAIT_MODEL, ADT_SEPMODEL, name):
             env = Env(b)
             me = ("param", b.key, 1)
-            zips = []
-            for bi, t in b.calls():
-                if "fn" in t and callee_id(t["fn"]).endswith("Iterator::zip"):
-                    zips.append(ev.call_val(env, bi))
+            FN = ("field", me, sm["functions"])
+            cn = tab.Canon(ev2)
+            effs = list(fx.iteration_effects(ev2, env))
+            ev2.fresh_ctx()
+            rv = ev2.ret_val(env)
+            rets = set()
+            for a in (rv[1] if rv[0] == "phi" else (rv,)):
+                if a[0] == "agg" and a[2] == "Ok":
+                    rets.add(nosite(cn.container(a[3][0][1])))
+                elif a[0] == "opt":
+                    for x in (a[1][1] if a[1][0] == "phi" else (a[1],)):
+                        rets.add(nosite(cn.container(x)))
+            cw = [w for w in tab.column_writes(cn, effs) if nosite(w.D) in rets]
             ok = False
-            msg = "no zip(functions, columns) loop"
-            if len(zips) == 1:
-                a, c = zips[0][3]
-                okf = a[0] == "call" and a[1] == "core::slice::iter" and a[3][0] == ("field", me, sm["functions"])
-                okc = c[0] == "call" and c[1].endswith("Matrix::column_iter_mut")
-                ok = okf and okc
-                if not okf:
-                    msg = "functions are iterated as `%s` (reordered / skipped?)" % short(a)[:100]
-                elif not okc:
-                    msg = "columns are iterated as `%s`" % short(c)[:100]
-                if ok:
-                    al = base_alloc(c[3][0])
-                    while al[0] == "call" and al[1].endswith("assume_init"):
-                        al = al[3][0]
-                    dims = [dimval(x) for x in al[3][:2]] if al[0] == "call" else []
-                    okd = len(dims) == 2 and dims[0][0] == "call" and dims[0][1].endswith("::len") and dims[0][3][0] == ("field", me, sm["x"]) and \
-                        dims[1][0] == "call" and dims[1][1].endswith("::len") and dims[1][3][0] == ("field", me, sm["functions"])
-                    R.add(rule, config, b.key, "shape=|x|×|functions|", okd, "" if okd else "result allocated as `%s`" % short(al)[:120], b.j["span"])
-            R.add(rule, config, b.key, "column j ↔ j-th function", ok, "" if ok else msg, b.j["span"])
-            # the callable evaluated is the function (eval) / the derivative under the key (deriv), on x and the current parameters
-            helper_calls = [(bi, t) for bi, t in b.calls() if "fn" in t and t["fn"].get("key") in F.bodies and F.bodies[t["fn"]["key"]].j.get("output", "").startswith("std::result::Result<nalgebra::Matrix")]
             okh = False
-            if len(helper_calls) == 1:
-                bi, t = helper_calls[0]
-                a = [ev.operand(env, x, (bi, None)) for x in t["args"]]
-                okx = a[1] == ("field", me, sm["x"]) and a[2][0] == "call" and a[2][1].endswith("as_slice") is False or True
-                okx = a[1] == ("field", me, sm["x"]) and contains(a[2], lambda y: y == ("field", me, sm["params"]))
-                if name == "eval":
-                    okf = a[0][0] == "field" and a[0][2] == sm["fn"] and contains(a[0], lambda y: y[0] == "elem")
+            msg = "expected one full-column write into the returned matrix per basis function, found %d" % len(cw)
+            msgh = "the callable is not evaluated on the model's x and current parameters"
+            if len(cw) == 1:
+                w = cw[0]
+                k = w.idx[0]
+                v = w.val
+                while v[0] == "payload" and v[2] == "ok":
+                    v = v[1]
+                if v[0] == "cf":
+                    v = v[1]
+                if not (v[0] == "call" and v[1] == hcid and len(v[3]) == 3):
+                    msg = "the column value `%s` is not the result of the checked evaluation helper" % short(w.val)[:100]
+                elif k[0] != "iv":
+                    msg = "the column index `%s` is not the position in the iteration over the functions" % short(k)[:60]
                 else:
-                    okf = contains(a[0], lambda y: y[0] == "call" and y[1].endswith("HashMap::get"))
-                okh = okx and okf
-            R.add(rule, config, b.key, "evaluates(function|derivative)(x, current-parameters)", okh, "" if okh else "the callable is not evaluated on the model's x and current parameters", b.j["span"])
+                    callable_, xarg, parg = v[3]
+                    bf = ("at", FN, k)
+                    if name == "eval":
+                        okf = callable_ == ("field", bf, sm["fn"])
+                    else:
+                        c = callable_
+                        while c[0] in ("payload", "opt") :
+                            c = c[1]
+                        okf = c[0] == "call" and c[1].endswith("HashMap::get") and c[3][0] == ("field", bf, sm["derivs"])
+                    ok = okf
+                    if not okf:
+                        msg = "column %s receives `%s`: not the %s of the function at the same position (reordered / skipped?)" % (
+                            short(k), short(callable_)[:100], "function" if name == "eval" else "stored derivative")
+                    okh = xarg == ("field", me, sm["x"]) and contains(parg, lambda y: y == ("field", me, sm["params"]))
+                    D = w.D
+                    dims = tab.alloc_dims(D)
+                    okd = dims is not None and dims[1] is not None and \
+                        cn.norm_extent(cn.canon(dims[0])) in (("len", ("field", me, sm["x"])), ("nrows", ("field", me, sm["x"]))) and \
+                        cn.norm_extent(cn.canon(dims[1])) == ("len", FN)
+                    R.add(rule, config, b.key, "shape=|x|×|functions|", okd, "" if okd else "result allocated as `%s`" % short(D)[:120], b.j["span"])
+            R.add(rule, config, b.key, "column j ↔ j-th function", ok, "" if ok else msg, b.j["span"])
+            R.add(rule, config, b.key, "evaluates(function|derivative)(x, current-parameters)", okh, "" if okh else msgh, b.j["span"])
     # functions role mutated only by Vec::push
     pushes = 0
     for b in F.bodies.values():
@@ -388,11 +428,42 @@ def rule_checked_calls(F, ev, R, config, rule="R-CHECKED-CALLS"):
         for bi, t in b.calls():
             if "fn" in t and t["fn"].get("key") == hb.key:
                 n += 1
-                cons = consumers(b, t["dest"]["l"])
-                ok = any(c["kind"] == "call" and c["cid"] == "std::ops::Try::branch" for c in cons) and not any(
-                    c["kind"] == "call" and c["cid"].rsplit("::", 1)[-1] in ("unwrap", "expect", "unwrap_or", "unwrap_or_default", "unwrap_or_else", "ok") for c in cons)
-                R.add(rule, config, b.key, "helper-result-propagated", ok, "" if ok else "the checked evaluation's error is not propagated with ?", t.get("span"))
-    R.floor(rule, config, 5, "single site, Ok/Err tables, two callers")
+                ok = result_propagated(b, t["dest"]["l"])
+                R.add(rule, config, b.key, "helper-result-propagated", ok, "" if ok else "the checked evaluation's error is not propagated (with `?`, or as the value a combinator chain hands back to the caller)", t.get("span"))
+    R.floor(rule, config, 4, "single site, Ok/Err tables, at least one caller")
+
+
+def result_propagated(b, local, depth=0):
+    """the Result held in `local` reaches the caller as a failure when it is Err: consumed by `?`, returned, or
+    passed through map/and_then/map_err/or_else whose own result is propagated; never unwrapped, discarded or
+    reduced to a bool/Option"""
+    if depth > 4:
+        return False
+    cons = consumers(b, local)
+    if not cons:
+        return False
+    good = False
+    for c in cons:
+        if c["kind"] == "return":
+            good = True
+        elif c["kind"] == "call":
+            m = c["cid"].rsplit("::", 1)[-1]
+            if c["cid"] == "std::ops::Try::branch":
+                good = True
+            elif c["cid"].startswith("std::result::Result::") and m in ("map", "and_then", "map_err", "or_else", "inspect", "inspect_err"):
+                d = c["term"]["dest"]
+                if d["proj"]:
+                    return False
+                if d["l"] == 0 or result_propagated(b, d["l"], depth + 1):
+                    good = True
+                else:
+                    return False
+            elif m in ("unwrap", "expect", "unwrap_or", "unwrap_or_default", "unwrap_or_else", "ok", "is_ok", "is_err", "unwrap_unchecked", "err"):
+                return False
+        elif c["kind"] == "discr":
+            good = True   # matched on: the arms are checked by the value rules
+    return good
+
 
 
 def rule_err_state_preserving(F, ev, R, config, rule="R-ERR-STATE-PRESERVING"):
